@@ -128,7 +128,7 @@ func (r *run) batch(sub []Op) (*failure, bool) {
 	wg.Wait()
 
 	// acknowledgements and model reconstruction: releases first, then the leases
-	var resetConns []*mconn
+	var resetConns, eitherConns []*mconn
 	for _, it := range items {
 		switch it.op.K {
 		case "reply":
@@ -144,6 +144,9 @@ func (r *run) batch(sub []Op) (*failure, bool) {
 				c.stream = nil
 				c.state = cIdle
 				r.idle = append(r.idle, c)
+				if c.either {
+					eitherConns = append(eitherConns, c)
+				}
 			}
 		case "reset":
 			if it.hang != nil {
@@ -323,36 +326,50 @@ func (r *run) batch(sub []Op) (*failure, bool) {
 	if f := r.streamsView(); f != nil {
 		return f, false
 	}
-	if r.h.Kind == pool.PingPong && len(resetConns) > 0 {
-		// other events of the batch (an upstream close) reach the books asynchronously: wait until the
-		// books equal the spec expectation or the "all reset connections re-pooled" (F11) one
-		spec := r.expect()
+	// Two things are not fixed by the property and are read off the books: (a) F11 - did the ping-pong
+	// pool re-pool the connections reset in this batch; (b) connections told to go away (Shutdown /
+	// GoAway) whose exchange ended in this batch may have been kept or closed by the pool.
+	if r.pingpong() && (len(eitherConns) > 0 || (r.h.Kind == pool.PingPong && len(resetConns) > 0)) {
+		base := r.expect()
 		var flipped []*mconn
-		for _, c := range resetConns {
-			if c.state == cClosed {
+		if r.h.Kind == pool.PingPong {
+			for _, c := range resetConns {
+				if c.state == cClosed {
+					flipped = append(flipped, c)
+				}
+			}
+		}
+		flip, gone, matched := false, 0, false
+		r.poll(func() string {
+			got := r.read()
+			for _, fl := range []bool{false, true} {
+				if fl && len(flipped) == 0 {
+					continue
+				}
+				for m := 0; m <= len(eitherConns); m++ {
+					w := base
+					if fl {
+						w.idle += len(flipped)
+						w.total += len(flipped)
+						w.connActive += int64(len(flipped))
+					}
+					w.idle -= m
+					w.total -= m
+					w.connActive -= int64(m)
+					if diffBooks(got, w) == "" {
+						flip, gone, matched = fl, m, true
+						return ""
+					}
+				}
+			}
+			return "no alternative matches"
+		})
+		if matched && flip {
+			for _, c := range flipped {
 				c.state, c.byPool = cIdle, false
 				c.dirty++
 				r.idle = append(r.idle, c)
-				flipped = append(flipped, c)
 			}
-		}
-		f11 := r.expect()
-		which := 0
-		if len(flipped) > 0 {
-			r.poll(func() string {
-				got := r.read()
-				if diffBooks(got, spec) == "" {
-					which = 1
-					return ""
-				}
-				if diffBooks(got, f11) == "" {
-					which = 2
-					return ""
-				}
-				return "neither"
-			})
-		}
-		if which == 2 {
 			if !r.known(sigF11) {
 				return &failure{sig: sigF11, step: r.step, msg: fmt.Sprintf("batch{%s }: after local resets the ping-pong pool put %d reset connection(s) back on its idle list (books: %s); model: %s", desc, len(flipped), r.read(), r.describe())}, false
 			}
@@ -360,11 +377,26 @@ func (r *run) batch(sub []Op) (*failure, bool) {
 			for _, c := range flipped {
 				c.wasDirty = true
 			}
-		} else {
-			for _, c := range flipped {
-				r.closeConn(c, true)
-				c.dirty--
+		}
+		if matched && gone > 0 {
+			// which of them: the upstream sees the close
+			var closed []*mconn
+			waitEither(r.d, func() bool {
+				closed = closed[:0]
+				for _, c := range eitherConns {
+					if uc := r.rig.Up.Conn(c.id); uc != nil && uc.PeerClosed {
+						closed = append(closed, c)
+					}
+				}
+				return len(closed) >= gone
+			})
+			if len(closed) != gone {
+				return r.failf(true, "books-differ-from-truth:after-batch", "batch{%s }: the books say %d of the drained connections were closed, the upstream saw %d closes; model: %s", desc, gone, len(closed), r.describe()), false
 			}
+			for _, c := range closed {
+				r.closeConn(c, true)
+			}
+			r.class("drained-connection-closed")
 		}
 	}
 	if k := r.out.batchReqOverflows; r.h.Kind == pool.HTTP1 && k > 0 && diffBooks(r.read(), r.expect()) != "" && r.known(sigF10) {
